@@ -1,7 +1,7 @@
 """C08 — conversion loops always make progress and terminate (R-PROGRESS, DESIGN.md §5)."""
 from mirlib import *
 from ranges import *
-import r_handle, t_dst, r_state, p_c09, r_utf8enc
+import r_handle, t_dst, r_state, p_c09, r_utf8enc, r_asciicopy
 
 MANIFEST = {
     'category': 'other',
@@ -265,6 +265,8 @@ def run(rep, facts, tier):
         capacities(rep, f, c, cap_use)
         no_spin(rep, f, c)
         r_utf8enc.run(rep, f, c)
+        na_ = r_asciicopy.run(rep, f, c)
+        rep.floor('R-ASCIICOPY', 'ASCII fast-path helpers of the handles', na_, 9, c)
         r_state.pairing(rep, f, c, 'R-STATE')
         for w in p_c09.WRAPPERS:
             if w[4]:
